@@ -713,6 +713,12 @@ class Message:
         except ValueError as e:
             raise error.MalformedUrlError from e
 
+        if (
+            "[" in parsed.netloc or "]" in parsed.netloc
+        ) and not _bracketed_netloc.fullmatch(parsed.netloc.rpartition("@")[2]):
+            # urllib would silently ignore any text around the brackets
+            raise error.MalformedUrlError("Invalid IP literal in the authority")
+
         if parsed.fragment or "#" in uri:
             raise error.MalformedUrlError(
                 "Fragment identifiers can not be set on a request URI"
@@ -929,6 +935,7 @@ _ascii_lowercase = str.maketrans(string.ascii_uppercase, string.ascii_lowercase)
 
 
 _pct_encoded_dot = re.compile("%2[eE]")
+_bracketed_netloc = re.compile(r"\[[^\[\]]*\](:[0-9]*)?")
 _zone_id = re.compile(r"([A-Za-z0-9._~-]|%[0-9A-Fa-f]{2})+")
 
 
